@@ -100,7 +100,11 @@ def realize(case, rng):
         s.rfc3161 = ksi.rfc3161_tlv(rfc)
     if case["cal"]:
         pub = t + 1000 + rng.randrange(500)
+        if has("calAggrOmittedOk"):
+            pub = t                               # issued in the publication second: the calendar chain's aggregation time may be left out
         cal_t = t + 1 if (has("calAggrTime") or has("calShape")) else t
+        if has("calAggrTimeAbsent"):
+            cal_t = pub                           # everything in the chain is consistent with ITS default aggregation time, the publication time
         shape = list(reversed(ksi.cal_shape(pub, cal_t)))
         if has("calShapeNone"):
             # link directions that are the shape of no leaf at all: surplus link(s) at the leaf end, or at the root end (checked against the reference derivation)
@@ -111,6 +115,8 @@ def realize(case, rng):
         cin = flip(h) if has("calInput") else h
         root = ksi.cal_aggregate(clinks, cin)
         field = t if has("calShape") else cal_t           # calShape: the field still says t, the shape says t+1
+        if has("calAggrTimeAbsent") or has("calAggrOmittedOk"):
+            field = None
         s.cal = dict(pub=pub, aggr=field, inp=cin, links=clinks)
         if case["anchor"] == "pub":
             s.pub = dict(time=pub + 1 if has("pubTime") else pub, imp=flip(root) if has("pubHash") else root)
